@@ -777,13 +777,13 @@ func (p *flowProto) genStream(cfg genCfg) func(r *rand.Rand, n int, w *bufio.Wri
 					// (every one is reported unknown and skipped; nothing may wait on anything)
 					hdr, _ := p.header(r, map[bool]int{true: 10, false: 9}[p.isIPFIX])
 					addr := exporterAddrs[r.Intn(len(exporterAddrs))]
-					if r.Intn(3) == 0 {
-						// … from an exporter that has announced thousands of templates (one ordinary datagram of 8-octet
+					if r.Intn(10) == 0 {
+						// … from an exporter that has announced many hundreds of templates (one ordinary datagram of 8-octet
 						// template records): the cost of an unknown set must not grow with what the cache holds (an error
 						// text listing the known ids, a scan of the shards per set: seed C02-h)
 						hdrA, _ := p.header(r, map[bool]int{true: 10, false: 9}[p.isIPFIX])
 						var body []byte
-						for i, nt := 0, 1000+r.Intn(3000); i < nt; i++ {
+						for i, nt := 0, 500+r.Intn(1000); i < nt; i++ {
 							body = append(body, p.encTplRec(tpl{id: 1000 + i, fields: []fspec{{id: 8, ln: 4}}})...)
 						}
 						fmt.Fprintf(w, "%s %s %s\t-\n", p.name, hx(addr), hx(cat(hdrA, be16(p.tplSet), be16(4+len(body)), body)))
